@@ -6,6 +6,7 @@ import (
 	"regexp"
 	"strconv"
 	"strings"
+	"unicode/utf8"
 
 	"github.com/expr-lang/expr"
 	"github.com/expr-lang/expr/vm"
@@ -306,13 +307,19 @@ func matchesLikePattern(text, pattern string) bool {
 			starIdx = pi
 			matchIdx = ti
 			pi++
-		} else if pi < len(pattern) && (pattern[pi] == '_' || pattern[pi] == text[ti]) {
+		} else if pi < len(pattern) && pattern[pi] == '_' {
+			// '_' stands for one character, which may span several bytes
+			_, size := utf8.DecodeRuneInString(text[ti:])
+			ti += size
+			pi++
+		} else if pi < len(pattern) && pattern[pi] == text[ti] {
 			ti++
 			pi++
 		} else if starIdx != -1 {
 			// backtrack: let the last '%' consume one more character
 			pi = starIdx + 1
-			matchIdx++
+			_, size := utf8.DecodeRuneInString(text[matchIdx:])
+			matchIdx += size
 			ti = matchIdx
 		} else {
 			return false
